@@ -4,7 +4,7 @@ interpreter's recursion limit is not hit).
 -/
 import PsdVerif.Lemmas.TreeInv
 
-namespace PsdVerif.Tree
+namespace PsdVerif.TreeSt
 
 /-- The guard of the inserting operations: the arguments are listed nowhere (and not repeated).
 Every other operation detaches first, or only removes. -/
@@ -498,4 +498,4 @@ theorem inv_opMoveUp {cfg : Cfg} {s : State} (i : Inv s) (hself : cfg.itemSelfCh
           exact inv_then_insert hself (opRemove cfg s p x) p _ x _ i1 hg1 hdet hne
         · rw [if_neg hx]; exact inv_refuse i _
 
-end PsdVerif.Tree
+end PsdVerif.TreeSt
